@@ -10,6 +10,18 @@ CATIONS = ["Na", "K", "Ca", "Mg"]
 ANIONS = ["Cl", "S(6)", "C(4)", "N(5)"]
 MINERALS = ["Calcite", "Dolomite", "Gypsum", "Quartz", "Halite", "Barite", "Anhydrite", "Aragonite", "Chalcedony", "Fluorite"]
 GASES = ["CO2(g)", "O2(g)", "N2(g)"]
+# vocabulary per database (what the generated blocks may name); "phreeqc" is the full one
+PROFILES = {
+    "phreeqc": dict(db="database/phreeqc.dat", cations=CATIONS, anions=ANIONS, minerals=MINERALS, surface=True, exch_x=True,
+                    calcite_rate=True, extras=None, pitzer=False),
+    "pitzer": dict(db="database/pitzer.dat", cations=CATIONS, anions=["Cl", "S(6)", "C(4)"],
+                   minerals=["Calcite", "Dolomite", "Gypsum", "Quartz", "Halite", "Anhydrite", "Anhydrite", "Halite"],
+                   surface=False, exch_x=True, calcite_rate=False, extras=["phase", "rate", "calc", "named"], pitzer=True),
+    "llnl": dict(db="database/llnl.dat", cations=CATIONS, anions=["Cl", "S", "C"],
+                 minerals=["Calcite", "Dolomite", "Gypsum", "Quartz", "Halite", "Anhydrite", "Anhydrite", "Halite"],
+                 surface=False, exch_x=False, calcite_rate=False, extras=["phase", "rate", "calc", "named"], pitzer=False),
+}
+PITZER_ADD = "PITZER\n -B0\n  Na+ Cl- %s\n -B1\n  Na+ Cl- %s\n"
 SPECIES = ["Na+", "Cl-", "Ca+2", "HCO3-", "CO3-2", "OH-", "H+", "SO4-2", "K+", "Mg+2", "CaSO4", "NaSO4-"]
 # Entities added to the database by the input itself.  Each can be defined AND redefined (other parameters) in any simulation,
 # while SELECTED_OUTPUT / USER_PUNCH blocks of ANY simulation (earlier or later) may name them: every pointer or look-up the
@@ -50,7 +62,10 @@ RATE_FORMULA = {"Calcite": "CaCO3", "Gypsum": "CaSO4", "Quartz": "SiO2"}
 
 
 class World:
-    def __init__(self):
+    def __init__(self, profile="phreeqc"):
+        self.prof = PROFILES[profile]
+        self.tr = None            # parameters of the last TRANSPORT block (they persist when a later block omits them)
+        self.adv = None
         self.sol = set()
         self.pp = set()
         self.ex = set()
@@ -94,9 +109,9 @@ def solution(rng, w, n, simple=False):
     s.append(f" pH {rng.uniform(5, 9):.2f}" + (" charge" if rng.random() < 0.25 else ""))
     if rng.random() < 0.2:
         s.append(f" pe {rng.uniform(0, 10):.1f}")
-    for e in rng.sample(CATIONS, rng.randint(1, 3)):
+    for e in rng.sample(w.prof["cations"], rng.randint(1, 3)):
         s.append(f" {e} {g(rng, -3, -0.5)}")
-    for e in rng.sample(ANIONS[:2] if simple else ANIONS, rng.randint(1, 2)):
+    for e in rng.sample(w.prof["anions"][:2] if simple else w.prof["anions"], rng.randint(1, 2)):
         s.append(f" {e} {g(rng, -3, -0.5)}")
     if w.extra_species and rng.random() < 0.5:
         s.append(f" Vf {g(rng, -4, -2)}")
@@ -107,7 +122,7 @@ def solution(rng, w, n, simple=False):
 
 
 def pp_block(rng, w, n):
-    ms = rng.sample(MINERALS[:4] + (["VerifSalt"] if w.extra_phase else []) + (["VerifNamed"] if "named" in w.ext else []),
+    ms = rng.sample(w.prof["minerals"][:4] + (["VerifSalt"] if w.extra_phase else []) + (["VerifNamed"] if "named" in w.ext else []),
                     rng.randint(1, 2))
     s = [f"EQUILIBRIUM_PHASES {n}"]
     for m in ms:
@@ -123,6 +138,10 @@ def exchange_block(rng, w, n):
     w.ex.add(n)
     w.count("EXCHANGE")
     if "exchange" in w.ext and rng.random() < 0.5:
+        return f"EXCHANGE {n}\n NaY {g(rng, -3, -1)}\n CaY2 {g(rng, -3, -1)}\n"
+    if not w.prof["exch_x"]:
+        if "exchange" not in w.ext:
+            return define_extra(rng, w, "exchange") + f"EXCHANGE {n}\n NaY {g(rng, -3, -1)}\n"
         return f"EXCHANGE {n}\n NaY {g(rng, -3, -1)}\n CaY2 {g(rng, -3, -1)}\n"
     if w.sol and rng.random() < 0.6:
         return f"EXCHANGE {n}\n X {g(rng, -3, -1)}\n -equilibrate {rng.choice(sorted(w.sol))}\n"
@@ -147,12 +166,16 @@ def kinetics_block(rng, w, n):
     w.kin.add(n)
     w.count("KINETICS")
     steps = rng.choice(["100 200", "3600 in 2 steps", "50", "10 20 30"])
-    if w.extra_rate and rng.random() < 0.5:
+    if not w.prof["calcite_rate"] and not w.extra_rate:
+        pre = define_extra(rng, w, "rate")
+    else:
+        pre = ""
+    if w.extra_rate and (rng.random() < 0.5 or not w.prof["calcite_rate"]):
         body = f" VerifRate\n  -formula {w.extra_rate_formula} 1\n  -m0 {g(rng, -3, -1)}\n  -parms {g(rng, -8, -6)}\n"
     else:
         body = f" Calcite\n  -m0 {g(rng, -3, -1)}\n  -parms {rng.choice(['1.67e5 0.6', '5 0.6', '100 0.67'])}\n  -tol 1e-8\n"
     extra = rng.choice(["", " -runge_kutta 3\n", " -cvode true\n", " -bad_step_max 200\n"])
-    return f"KINETICS {n}\n{body} -steps {steps}\n{extra}"
+    return pre + f"KINETICS {n}\n{body} -steps {steps}\n{extra}"
 
 
 def reaction_block(rng, w, n):
@@ -165,7 +188,7 @@ def reaction_block(rng, w, n):
     return f"REACTION {n}\n {what}\n {how}\n"
 
 
-PUNCH_EXPR = ["-LA(\"H+\")", "TOT(\"Na\")", "TOT(\"Cl\")", "MOL(\"Ca+2\")", "MU", "SI(\"Calcite\")", "EQUI(\"Calcite\")",
+PUNCH_EXPR = ["GET(8)", "-LA(\"H+\")", "TOT(\"Na\")", "TOT(\"Cl\")", "MOL(\"Ca+2\")", "MU", "SI(\"Calcite\")", "EQUI(\"Calcite\")",
               "KIN(\"Calcite\")", "TOTAL_TIME", "STEP_NO", "CELL_NO", "TC", "ALK", "CHARGE_BALANCE", "TOT(\"water\")",
               "GAS(\"CO2(g)\")", "MOL(\"NaX\")", "RHO", "SC", "\"txt\"", "1/3", "EXISTS(7)", "TIME", "SIM_TIME"]
 
@@ -198,11 +221,12 @@ def selected_output(rng, w, n):
         s.append(" -reset false")
     if rng.random() < 0.3:
         s.append(f" -high_precision {rng.choice(['true', 'false'])}")
-    opts = [" -totals " + " ".join(rng.sample(CATIONS + ANIONS, rng.randint(1, 3))),
+    P = w.prof
+    opts = [" -totals " + " ".join(rng.sample(P["cations"] + P["anions"], rng.randint(1, 3))),
             " -molalities " + " ".join(rng.sample(SPECIES, rng.randint(1, 3))),
             " -activities " + " ".join(rng.sample(SPECIES, rng.randint(1, 2))),
-            " -saturation_indices " + " ".join(rng.sample(MINERALS[:8], rng.randint(1, 3))),
-            " -equilibrium_phases " + " ".join(rng.sample(MINERALS[:4], rng.randint(1, 2))),
+            " -saturation_indices " + " ".join(rng.sample(P["minerals"][:8], rng.randint(1, 3))),
+            " -equilibrium_phases " + " ".join(rng.sample(P["minerals"][:4], rng.randint(1, 2))),
             " -kinetic_reactants Calcite", " -gases CO2(g) N2(g)",
             " -pH true", " -pe true", " -ionic_strength true", " -water true", " -charge_balance true",
             " -percent_error true", " -alkalinity true", " -temperature true", " -step true", " -time true",
@@ -216,6 +240,12 @@ def selected_output(rng, w, n):
             w.count("selout_ref_" + kind + ("" if kind in w.ext else "_before_def"))
     if rng.random() < 0.1:
         s.append(" -user_punch false")
+    if rng.random() < 0.12:
+        s.append(" -active " + rng.choice(["false", "true"]))
+        w.count("SELECTED_OUTPUT_active")
+    if rng.random() < 0.1:
+        s.insert(1, " -file verif_c04_sel_%d.out" % n)         # the file switch is off: nothing is written
+        w.count("SELECTED_OUTPUT_file")
     w.selout.add(n)
     w.count("SELECTED_OUTPUT")
     return "\n".join(s) + "\n"
@@ -244,7 +274,7 @@ def simulation(rng, w, idx):
             t.append(user_punch(rng, w, n))
     elif w.selout and rng.random() < 0.15:
         t.append(user_punch(rng, w, pick(rng, w.selout)))
-    for kind in sorted(EXTRA):
+    for kind in sorted(w.prof["extras"] or EXTRA):
         # first definition, or a redefinition with other parameters, in any simulation
         if rng.random() < (0.13 if kind not in w.ext else 0.10):
             t.append(define_extra(rng, w, kind))
@@ -261,11 +291,22 @@ def simulation(rng, w, idx):
     if rng.random() < 0.1:
         t.append("INCREMENTAL_REACTIONS %s\n" % rng.choice(["true", "false"]))
         w.count("INCREMENTAL_REACTIONS")
+    if rng.random() < 0.1:
+        # USER_PRINT runs only when the output stream is on (the check switches the output string on for these inputs);
+        # its PUT is visible to every later USER_PUNCH through GET(8)
+        t.append("USER_PRINT\n -start\n 10 IF EXISTS(8) = 0 THEN PUT(0, 8)\n 20 PUT(GET(8) + %d, 8)\n 30 PRINT \"count\", GET(8)\n -end\n"
+                 % rng.choice([1, 2, 5]))
+        w.count("USER_PRINT")
+    if w.prof["pitzer"] and rng.random() < 0.15:
+        t.append(PITZER_ADD % (rng.choice(["0.0765", "0.08", "0.07"]), rng.choice(["0.2664", "0.25"])))
+        w.count("PITZER")
     # ---- what this simulation does
     kind = rng.choice(["react", "react", "react", "kin", "mix", "transport", "advect", "cells", "copy", "delete", "none", "dump",
                        "surface", "gas", "modify"])
     if kind in ("react", "kin", "surface", "gas") and not w.sol:
         kind = "none"
+    if kind == "surface" and not w.prof["surface"]:
+        kind = "react"
     if kind == "react":
         s = pick(rng, w.sol)
         t.append(f"USE solution {s}\n")
@@ -326,24 +367,43 @@ def simulation(rng, w, idx):
         w.count("MIX")
     elif kind in ("transport", "advect"):
         nc = rng.randint(2, 4)
+        prev = w.tr if kind == "transport" else w.adv
+        if prev and rng.random() < 0.6:
+            nc = prev                                  # same column again: the block may then be a partial one
         if w.cells < nc:
             for c in range(0, nc + 1):
                 if c not in w.sol or c == 0:
                     t.append(solution(rng, w, c, simple=True))
             w.cells = nc
-        if rng.random() < 0.4:
+        if rng.random() < 0.4 and w.prof["exch_x"]:
             t.append(f"EXCHANGE 1-{nc}\n X {g(rng, -3, -2)}\n -equilibrate 1\n")
             w.ex.update(range(1, nc + 1))
         if kind == "transport":
-            t.append(f"TRANSPORT\n -cells {nc}\n -shifts {rng.randint(1, 3)}\n -lengths {rng.choice(['0.1', '0.05'])}\n"
-                     f" -dispersivities {rng.choice(['0.01', '0.002', '0'])}\n -time_step {rng.choice(['100', '3600'])}\n"
-                     f" -flow_direction {rng.choice(['forward', 'back', 'diffusion_only'])}\n"
-                     f" -boundary_conditions {rng.choice(['flux flux', 'constant closed', 'closed closed', 'constant flux'])}\n"
-                     f" -punch_cells {rng.randint(1, nc)}-{nc}\n -print_cells 1\n")
-            w.count("TRANSPORT")
+            if w.tr == nc and rng.random() < 0.5:
+                # a later TRANSPORT block that only changes -shifts (and maybe the clock): everything else persists
+                t.append(f"TRANSPORT\n -shifts {rng.randint(1, 3)}\n" +
+                         (f" -initial_time {rng.choice(['0', '1000', '86400'])}\n" if rng.random() < 0.4 else ""))
+                w.count("TRANSPORT_partial")
+            else:
+                t.append(f"TRANSPORT\n -cells {nc}\n -shifts {rng.randint(1, 3)}\n -lengths {rng.choice(['0.1', '0.05'])}\n"
+                         f" -dispersivities {rng.choice(['0.01', '0.002', '0'])}\n -time_step {rng.choice(['100', '3600'])}\n"
+                         f" -flow_direction {rng.choice(['forward', 'back', 'diffusion_only'])}\n"
+                         f" -boundary_conditions {rng.choice(['flux flux', 'constant closed', 'closed closed', 'constant flux'])}\n"
+                         f" -punch_cells {rng.randint(1, nc)}-{nc}\n -print_cells 1\n" +
+                         (f" -initial_time {rng.choice(['500', '7200'])}\n" if rng.random() < 0.2 else ""))
+                w.tr = nc
+                w.count("TRANSPORT")
         else:
-            t.append(f"ADVECTION\n -cells {nc}\n -shifts {rng.randint(1, 3)}\n -punch_cells 1-{nc}\n -print_cells 1\n")
-            w.count("ADVECTION")
+            if w.adv == nc and rng.random() < 0.5:
+                t.append(f"ADVECTION\n -shifts {rng.randint(1, 3)}\n" +
+                         (f" -initial_time {rng.choice(['0', '1000'])}\n" if rng.random() < 0.4 else ""))
+                w.count("ADVECTION_partial")
+            else:
+                t.append(f"ADVECTION\n -cells {nc}\n -shifts {rng.randint(1, 3)}\n -punch_cells 1-{nc}\n -print_cells 1\n" +
+                         (f" -time_step {rng.choice(['100', '3600'])}\n" if rng.random() < 0.4 else "") +
+                         (f" -initial_time {rng.choice(['500', '7200'])}\n" if rng.random() < 0.2 else ""))
+                w.adv = nc
+                w.count("ADVECTION")
     elif kind == "cells" and w.sol:
         cs = rng.sample(sorted(w.sol), min(len(w.sol), rng.randint(1, 2)))
         t.append("RUN_CELLS\n -cells " + " ".join(map(str, cs)) + ("\n -time_step 100\n" if rng.random() < 0.5 else "\n"))
@@ -406,9 +466,9 @@ def layout(rng, text):
     return sep.join(out), mode
 
 
-def multi_sim_input(rng, nsim=None):
+def multi_sim_input(rng, nsim=None, profile="phreeqc"):
     """returns (text, info).  Simulations are separated by END lines; the last simulation also ends with END."""
-    w = World()
+    w = World(profile)
     nsim = nsim or rng.choice([2, 3, 3, 4, 4, 5, 6, 7, 8])
     sims = []
     for i in range(nsim):
